@@ -541,6 +541,32 @@ def run(ctx):
             "discovery functions (%s) or reset to `not discovered` after construction (%s)" % (outside, forgets), where(gav, gav.node),
             "a format-1 batch built under the discovered table is retried after the table was forgotten and re-discovery failed: "
             "format-1 messages under a version-0 header")
+    # ... and the fall-back is stored only over the undiscovered state: discoveries overlap (a fetch and a produce started
+    # together), and the one that failed must not replace what the other one found.  Decided with the facts that survive
+    # a suspension point (anything may have run while the coroutine waited)
+    fav = ctx.func("client:KafkaClient.fetch_api_versions")
+    cfv = ctx.cfg(fav)
+    ffv = ctx.facts(fav)
+    hau_ = ctx.func("client:KafkaClient._handle_api_version_update")
+    fb_sites = []
+    for n in cfv.nodes:
+        for c in n.calls():
+            if prog.resolve_call(fav, c) is hau_ and c.args:
+                a0 = c.args[0]
+                ogs_ = value_origins(cfv, n.id, a0, params=fav.params) if isinstance(a0, ast.Name) else [(n.id, a0)]
+                if ogs_ and any(isinstance(e_, ast.Call) and call_name(e_) == "ApiVersionResponse" and e_.args and isinstance(const_value(prog, fav, e_.args[0]), int)
+                                and const_value(prog, fav, e_.args[0]) != 0 for _d, e_ in ogs_):
+                    fb_sites.append(n)
+        if n.kind == "stmt" and isinstance(n.stmt, ast.Assign) and any(self_attr(t) == "_api_versions" for t in n.stmt.targets):
+            try:
+                if ast.literal_eval(n.stmt.value) is not None:
+                    fb_sites.append(n)
+            except (ValueError, TypeError, SyntaxError):
+                pass
+    okf = bool(fb_sites) and all(("self._api_versions is None", True) in ffv[n.id] or ("self._api_versions is not None", False) in ffv[n.id] for n in fb_sites)
+    r.check(okf, "%s#fallback-only-while-undiscovered" % fav.qname, "the fall-back state is stored without `_api_versions is None` having been "
+            "established since the last suspension", where(fav, fb_sites[0].stmt if fb_sites else fav.node),
+            "two discoveries overlap; one is answered, the other times out: the one that failed stores version 0 over the discovered table")
     rets = [n for n in cg.nodes if n.kind == "stmt" and isinstance(n.stmt, ast.Return)]
 
     def _is_fallback(facts_):
@@ -672,6 +698,13 @@ def run(ctx):
 
 
 MUTANTS = [
+    {"id": "failed-discovery-overwrites-a-successful-one", "file": "client.py",
+     "old": "            if self._api_versions is None:\n                # Nobody else found out meanwhile either\n                self._handle_api_version_update(err)\n",
+     "new": "            self._handle_api_version_update(err)\n", "expect": "C04.R6", "note": "finding F49"},
+    {"id": "fallback-guard-taken-before-the-wait", "file": "client.py",
+     "edits": [("client.py", "        while self._api_versions is None and api_version_failures < 3:\n", "        undiscovered = self._api_versions is None\n        while self._api_versions is None and api_version_failures < 3:\n"),
+               ("client.py", "            if self._api_versions is None:\n                # Nobody else found out meanwhile either\n", "            if undiscovered:\n                # Nobody else found out meanwhile either\n")],
+     "expect": "C04.R6", "note": "finding F49: the test result is from before the suspension"},
     {"id": "api-versions-stray-int", "file": "kafkacodec.py",
      "old": "        return cls._encode_message_header(client_id, correlation_id, api_version_request.api_key)\n",
      "new": "        return cls._encode_message_header(client_id, correlation_id, api_version_request.api_key) + struct.pack(\n            \">i\", api_version_request.api_version\n        )\n",
@@ -725,6 +758,10 @@ MUTANTS = [
      "new": "message += struct.pack(\"<hii\", acks, timeout, len(grouped_payloads))", "expect": "C04.R8"},
 ]
 TWINS = [
+    {"id": "fallback-guard-negated", "file": "client.py",
+     "old": "            if self._api_versions is None:\n                # Nobody else found out meanwhile either\n                self._handle_api_version_update(err)\n            return err\n",
+     "new": "            if self._api_versions is not None:\n                return err\n            self._handle_api_version_update(err)\n            return err\n",
+     "note": "early return instead of a guarded store"},
     {"id": "fallback-state-empty-list", "note": "seeded C04-5, harmless since F5a made the producer test truthiness",
      "edits": [("client.py", "self._api_versions = None if enable_protocol_version_discovery else 0", "self._api_versions = None if enable_protocol_version_discovery else []"),
                ("client.py", "        if self._api_versions == 0:\n            return 0", "        if not self._api_versions:\n            return 0"),
